@@ -465,8 +465,6 @@ def gen(rng, tier):
     yield from _gen_main(rng, tier)
     yield from length_sweep(rng, tier)
     yield from wide(rng, tier)
-    if tier == "thorough":
-        yield from _ws.parse_print(rng)
     yield from _prim.utf8(rng, tier)
 
 
